@@ -103,8 +103,11 @@ func (db *Backend) ListBucket(name string, prefix *gofakes3.Prefix, page gofakes
 	var lastMatchedPart string
 
 	// A marker that lies inside a common prefix means the previous page ended
-	// with that prefix; the rest of its keys must not report it again:
-	if page.Marker != "" && prefix.Match(page.Marker, &match) && match.CommonPrefix {
+	// with that prefix; the rest of its keys must not report it again. That only
+	// holds if the prefix has a key at or before the marker: a start-after value
+	// that sorts before all of its keys has not delivered it yet.
+	if page.Marker != "" && prefix.Match(page.Marker, &match) && match.CommonPrefix &&
+		storedBucket.hasObjectUpTo(match.MatchedPart, page.Marker) {
 		lastMatchedPart = match.MatchedPart
 	}
 
